@@ -49,3 +49,35 @@ Definition grid_agrees (exact : bool) (scale : Qc) (d : DieSt) (nrows ncols : Z)
   | Ok m => if exact then die_eqb m d' else die_close 16 scale m d'
   | _ => false
   end.
+
+(* ---- histories of one Die object (Refine/DieOps.v) ---- *)
+From FrameModel Require Import Refine.DieOps Refine.DieOpsFacts.
+From FrameModel Require Cases.CmpC01.
+
+(* DieOpsFacts.die_inv, decided: the state the constructor left tiles the die *)
+Definition die_inv_b (d : DieSt) : bool :=
+  wfb (bbox d) && FrameModel.Cases.CmpC01.tiles_b (refinable d ++ blockages d ++ fixedr d) (bbox d).
+Lemma die_inv_b_sound d : die_inv_b d = true -> die_inv d.
+Proof.
+  unfold die_inv_b, die_inv. intro H. apply andb_true_iff in H. destruct H as [H1 H2]. split.
+  - apply FrameModel.Cases.CmpC01.wfb_wf. exact H1.
+  - apply FrameModel.Cases.CmpC01.tiles_b_sound. exact H2.
+Qed.
+
+(* an observed history from a state that tiles the die *)
+Definition history_ok (d0 : DieSt) (tr : list event) : bool := die_inv_b d0 && trace_ok d0 tr.
+
+(* a grid step whose cell size is not a binary fraction: the cells within 16 roundings *)
+Definition step_agrees (exact : bool) (scale : Qc) (d : DieSt) (op : die_op) (out : outcome) (d' : DieSt) : bool :=
+  match op, out with
+  | OGrid nr nc, Returned => grid_agrees exact scale d nr nc d'
+  | _, _ => step_ok d op out d'
+  end.
+
+(* phase 2 of every split step stopped as early as it could *)
+Fixpoint trace_tight (d : DieSt) (tr : list event) : bool :=
+  match tr with
+  | [] => true
+  | (OSplit r n, Returned, d') :: rest => die_split_tight d r n d' && trace_tight d' rest
+  | (_, _, d') :: rest => trace_tight d' rest
+  end.
